@@ -746,6 +746,14 @@ func draw(rt *rapid.T) descriptor {
 			for i := 0; i < k; i++ {
 				d.Procs = append(d.Procs, procSpec{Kind: "waiting", Pre: rapid.IntRange(0, 1).Draw(rt, "pre"), Target: -1, ThrowFirst: rapid.Bool().Draw(rt, "throwFirst")})
 			}
+			if rapid.Bool().Draw(rt, "instantiatedTwice") {
+				// a second executable process throws into the same start event: the
+				// forking process runs as TWO instances in the set, and the throw
+				// events of the second are delivered like those of the first (every
+				// waiting process behind them is instantiated once per throw)
+				d.Procs = append(d.Procs, procSpec{Kind: "thrower", Pre: 1, Post: 0, Target: 1})
+				d.Actions = append(d.Actions, action{Kind: "answerAll"})
+			}
 			d.Actions = append(d.Actions, action{Kind: "answer"})
 			for i := rapid.IntRange(0, 6).Draw(rt, "actions"); i > 0; i-- {
 				d.Actions = append(d.Actions, action{Kind: rapid.SampledFrom([]string{"answer", "answerAll", "wait"}).Draw(rt, "akind"), Arg: rapid.IntRange(0, 5).Draw(rt, "arg")})
